@@ -13,6 +13,8 @@ from checks import issuance_common as ic
 
 
 def run(ctx):
+    if ctx.thorough:
+        ctx.prove("IssuanceProofs")   # unbounded (TLAPS): accepted => honest content under the pinned key; tokens ignore the blind; verify-exact
     for t in (1, 2, 5):
         ctx.model_check("MC_Issuance", ctx.pick("MC_Issuance_t%d.cfg" % t, "MC_Issuance_t%d_thorough.cfg" % t))
     n, cases, kinds = ic.run(ctx, "C11", ["det"], shards=2)
